@@ -120,6 +120,9 @@ void harness(void) {
     }
     CHECK(membk_n_writes == 0 && membk_n_truncates == 0, "opening for read never writes");
 #elif defined(MODE_FRAMING)
+#ifndef ZERO_MIDDLE_FIRST_LEN
+#define ZERO_MIDDLE_FIRST_LEN 5
+#endif
     struct jls_raw_s * raw = NULL;
     int32_t rc = jls_raw_open(&raw, "f", "w");
     CHECK(rc == 0 && raw != NULL, "open for write");
@@ -131,6 +134,10 @@ void harness(void) {
     for (unsigned k = 0; k < NCH; ++k) {
         SYM_U32(len);
         ASSUME(len <= PMAX);
+#ifdef ZERO_MIDDLE
+        if (k == 1) { len = 0; }          /* a chunk without payload between two others (every track DEF chunk of a real file) */
+        if (k == 0) { len = ZERO_MIDDLE_FIRST_LEN; }
+#endif
         plen[k] = len;
         SYM_BYTES(pay[k], PMAX, "payload");
         struct jls_chunk_header_s h;
